@@ -10,7 +10,7 @@ META = {
     'text': 'Decides where each field of the trace context comes from on every path: a child context copies trace id and sampling decision and draws a fresh span id; the context a call '
             'transmits is either the tracing span\'s or a child of the caller-supplied one, and that very value is what is queued, written into the request and stored in the in-flight table; '
             'the cancel message carries the context stored under the id being cancelled; the server overwrites only the trace context (span-derived after installing the received context as '
-            'parent, or a child of the received one) and hands that context to the handler. Together with C01 pairing this implies that concurrent requests cannot exchange contexts.',
+            'parent, or a child of the received one) and hands that context to the handler. No thread-local or static cell holds a context (C18.ambient) and Context::current() yields only the context of the current span or a fresh root (C18.current). Together with C01 pairing this implies that concurrent requests cannot exchange contexts.',
     'note': 'Trusted: OpenTelemetry / tracing-opentelemetry propagation behind Span::context and set_parent; rand for fresh span ids.',
 }
 
